@@ -172,5 +172,17 @@ func TestC04(t *testing.T) {
 		c04Part.EvalCase(s, c04Case{Poly: polySpec{Kind: "dense", Seed: uint64(1000*hx.Seed() + hx.Shard())}, Point: pt,
 			Label: "b", Results: []string{"plus1", "neighbour_lo", "neighbour_hi", "zero"}, Seed: uint64(hx.Shard())})
 	}
+	// structured polynomials: a half whose non-zero evaluations cancel; long runs of equal neighbours
+	structured := []polySpec{
+		{Kind: "cancel", Base: 1, Idx: []int{0, 1}, Seed: uint64(3*hx.Shard() + 1)}, {Kind: "cancel", Base: 0, Idx: []int{5, 9, 77}, Seed: uint64(3 * hx.Shard())},
+		{Kind: "cancel", Base: hx.Shard() & 1, Idx: []int{127, 0, 64, 31}, Seed: uint64(hx.Shard() + 2)}, {Kind: "steps", Base: 7, Seed: uint64(hx.Shard())},
+	}
+	for i, p := range structured {
+		for j, pt := range []string{"3", "81", "12c", hx.HexBig(rMinus1)} {
+			if hx.Sharded(i + j) {
+				c04Part.EvalCase(s, c04Case{Poly: p, Point: pt, Label: "s", Results: []string{"plus1", "zero"}, Seed: uint64(i)})
+			}
+		}
+	}
 	c04Part.Run(s, hx.PerShard(hx.Pick(480, 6400)))
 }
